@@ -1909,7 +1909,9 @@ def replace_pad_by_hw_pad(op: Operation, arch, nng) -> Operation:
         # Adjust the padding attributes of the convolution operator
         op.attrs["padding"] = Padding.EXPLICIT
         op.attrs["explicit_padding"] = (top, left, bottom, right)
-        op.set_ifm_ofm_shapes()
+        # Only the IFM changes (it is now the input of the PAD). The OFM shape of the operator must be kept: it can differ
+        # from the shape of the OFM tensor when a RESHAPE after the operator has already been bypassed
+        op.ifm_shapes[0] = Shape4D(pad_op.ifm_shapes[0].as_list())
         DebugDatabase.add_optimised(op, op)
 
     return op
